@@ -115,6 +115,69 @@ def evalStep (plus : Option α → Option α → Option α) (fin : α → Option
   let (qs', vs2) := evalDefine plus fin c.qs vs1
   ({ qs := qs', pending := [] }, vs2)
 
+/-! ### `UDQState::add_define` / `add_assign` for scalar, well and group level results
+
+`UDQState::add(udq_key, result)` (UDQState.cpp): by the result's `var_type()` — well and group
+sets go through `add_results` (`values[udq_key]` is created if absent; then, element by element,
+a defined element is `insert_or_assign`ed and an undefined one `erase`d), everything else is a
+scalar (`result[0]`; an empty set throws `std::out_of_range`).  `add_define` additionally records
+the report step in `defines`, which nothing modelled here reads. -/
+
+inductive Kind where | scalar | well | group
+  deriving DecidableEq, Repr
+
+/-- what `UDQState::add` looks at in a `UDQSet`: kind and the (wgname, optional value) elements -/
+structure RSet (α : Type) where
+  kind : Kind
+  vals : List (String × Option α)
+
+/-- `add_results` on one quantity's `SMap<double>` (wgname ↦ value) -/
+def addResults (m : Vals α) : List (String × Option α) → Vals α
+  | [] => m
+  | (w, v) :: r => addResults (setVal m w v) r
+
+/-- `well_values` / `group_values`: udq key ↦ (wgname ↦ value) -/
+abbrev SetVals (α : Type) := Vals (Vals α)
+
+/-- elements stored for `key` (an absent key has none) -/
+def getElems (sv : SetVals α) (key : String) : Vals α := (getVal sv key).getD []
+
+structure State (α : Type) where
+  scalars : Vals α
+  wells : SetVals α
+  groups : SetVals α
+
+def State.empty : State α := ⟨[], [], []⟩
+
+/-- `UDQState::add`; `none` = throws -/
+def State.add (s : State α) (key : String) (r : RSet α) : Option (State α) :=
+  match r.kind with
+  | .well => some { s with wells := setVal s.wells key (some (addResults (getElems s.wells key) r.vals)) }
+  | .group => some { s with groups := setVal s.groups key (some (addResults (getElems s.groups key) r.vals)) }
+  | .scalar =>
+    match r.vals with
+    | (_, v) :: _ => some { s with scalars := setVal s.scalars key v }
+    | [] => none
+
+/-- a history of `add_define` / `add_assign` calls, oldest first -/
+def State.run (s : State α) : List (String × RSet α) → Option (State α)
+  | [] => some s
+  | (key, r) :: rest =>
+    match s.add key r with
+    | none => none
+    | some s' => State.run s' rest
+
+def State.setVals (s : State α) : Kind → SetVals α
+  | .well => s.wells
+  | .group => s.groups
+  | .scalar => []
+
+/-- `has_well_var(w, key)` / `get_well_var` (and the group versions): the stored element -/
+def State.elem (s : State α) (k : Kind) (key w : String) : Option α := getVal (getElems (s.setVals k) key) w
+
+/-- `has(key)` / `get(key)` -/
+def State.scalar (s : State α) (key : String) : Option α := getVal s.scalars key
+
 /-! ### protocol -/
 
 def hexStr' (s : String) : Option String := (ofHex s).map fun bs => String.ofList (bs.map fun b => Char.ofNat b.toNat)
